@@ -592,6 +592,8 @@ def check_case(case):
             return check_cyc(case)
         if k == 'wb':
             return check_wb(case)
+        if k == 'wb2':
+            return check_wb2(case)
     raise ValueError(k)
 
 
@@ -641,6 +643,52 @@ def _fixed_wbs():
     return out
 
 
+def _two_cycle_wbs():
+    """Fixed family (added after seed c10-a-r3): an upstream cycle X avoidable through its own guard, and a downstream cycle Y
+    whose guarded back edge is a rectangle that also holds a cell of X; every guard combination, three cell orders.  Their
+    failures carry signatures of their own (twocycles|...), so no listed finding can hide them."""
+    S = (G.BOOK, 'S')
+
+    def Rr(c, r):
+        return ['R', S[0], S[1], c, r]
+    out = []
+    for a1 in (False, True):
+        for a2 in (False, True):
+            for shape in ('y-reads-x', 'shared-bystander'):  # (the mirrored shape, X reading the rectangle, is listed finding F-C10-3)
+                if shape == 'y-reads-x':
+                    rg = ['RG', S[0], S[1], 1, 3, 2, 3]     # C1:C2 in the demo's terms: cells (1,3) of Y and (2,3) of X
+                    cells = [[7, 1, a1], [7, 2, a2],
+                             [1, 2, ['IF', Rr(7, 1), ['SUM', rg], 1]], [1, 3, ['+', Rr(1, 2), 1]],
+                             [2, 3, ['IF', Rr(7, 2), Rr(1, 5), 5]], [1, 5, ['+', Rr(2, 3), 1]],
+                             [1, 4, ['+', Rr(1, 3), Rr(1, 3)]], [1, 6, 10], [1, 7, ['+', Rr(1, 6), 1]]]
+                elif shape == 'x-reads-y':
+                    rg = ['RG', S[0], S[1], 1, 3, 2, 3]
+                    cells = [[7, 1, a1], [7, 2, a2],
+                             [1, 2, ['IF', Rr(7, 1), Rr(1, 3), 1]], [1, 3, ['+', Rr(1, 2), 1]],
+                             [2, 3, ['IF', Rr(7, 2), ['+', ['SUM', rg], Rr(1, 5)], 5]], [1, 5, ['+', Rr(2, 3), 1]],
+                             [1, 6, 10], [1, 7, ['+', Rr(1, 6), 1]]]
+                else:
+                    rg = ['RG', S[0], S[1], 1, 3, 3, 3]     # the rectangle also holds a bystander constant (3,3)
+                    cells = [[7, 1, a1], [7, 2, a2], [3, 3, 4],
+                             [1, 2, ['IF', Rr(7, 1), ['SUM', rg], 1]], [1, 3, ['+', Rr(1, 2), 1]],
+                             [2, 3, ['IF', Rr(7, 2), Rr(1, 5), 5]], [1, 5, ['+', Rr(2, 3), 1]], [1, 4, ['+', Rr(1, 3), Rr(1, 3)]]]
+                m = len(cells)
+                rot = list(range(m))[3:] + list(range(m))[:3]
+                out.append({'k': 'wb2', 'variant': '%s|a1=%s|a2=%s' % (shape, a1, a2),
+                            'wb': {'k': 'wb', 'cells': [list(S) + c for c in cells], 'names': [],
+                                   'orders': [list(range(m)), list(range(m))[::-1], rot], 'paths': ['dict', 'file'], 'sheet_order': ['S']}})
+    return out
+
+
+def check_wb2(case):
+    r = check_wb(case['wb'])
+    if 'wb:out-of-domain' in r['labels']:
+        raise RuntimeError('a fixed two-cycle workbook is outside the oracle\'s domain: %s' % case['variant'])
+    r['fails'] = [('twocycles|%s|%s' % (case['variant'], s_.split('|', 1)[1] if s_.startswith('mark|') else s_), d_) for s_, d_ in r['fails']]
+    r['labels'] = list(r['labels']) + ['part:twocycles']
+    return r
+
+
 def _wb_strategy(tier):
     return st.randoms(use_true_random=False).map(lambda r: G.gen_wb(r, tier))
 
@@ -657,6 +705,7 @@ def parts(tier, seed):
     return [
         ('enum', 'digraphs<=4', _blocks(), 2, True),
         ('enum', 'fixed-workbooks', _fixed_wbs(), 1, False),
+        ('enum', 'two-cycles-and-a-rectangle', _two_cycle_wbs(), 1, False),
         ('hyp', 'graphs', 2400 if q else 40000),
         ('hyp', 'workbooks', 960 if q else 16000),
         ('custom', 'hashseeds', 'run_hashseed', list(range(8 if q else 24))),
